@@ -283,9 +283,11 @@ def c18(tier, seed):
     violations, known, nondet = [], [], []
     batches = []
     lock_info = {}
-    for cfg in ("corpus", "lockstep", "lockstep-fault"):
+    for cfg in ("corpus", "small", "lockstep", "lockstep-fault"):
         if cfg == "corpus":
             bs, ncommon, mism = lockstep_compare("C18", seed, cfg, exes, 470, 0, W)
+        elif cfg == "small":    # every op sequence up to length 3 (thorough: 4) over the 21-symbol alphabet, in all three builds
+            bs, ncommon, mism = lockstep_compare("C18", seed, cfg, exes, 21 + 21**2 + 21**3 + (21**4 if tier == "thorough" else 0), 0, W)
         else:
             bs, ncommon, mism = lockstep_compare("C18", seed, cfg, exes, lcnt, secs, W)
         batches += list(bs.values())
